@@ -4,19 +4,52 @@ package rotation
 
 import (
 	"context"
+	"crypto/x509"
 	"time"
 
 	"github.com/hashicorp/nodeenrollment"
+	"github.com/hashicorp/nodeenrollment/registration"
 	"github.com/hashicorp/nodeenrollment/types"
 	"github.com/hashicorp/nodeenrollment/zzverif/vf"
 	"github.com/hashicorp/nodeenrollment/zzverif/vfs"
+	"google.golang.org/protobuf/proto"
+	"google.golang.org/protobuf/types/known/timestamppb"
 )
 
-func init() { VfHarnesses["VerifC09NodeLemma"] = VerifC09NodeLemma }
+func init() {
+	VfHarnesses["VerifC09NodeLemma"] = VerifC09NodeLemma
+	VfHarnesses["VerifC09Base"] = VerifC09Base
+}
 
-// C09 (3b): server rotates at a cadence <= delta; a node enrolls (real authorize path) right after some call;
-// at any instant less than R = (S-delta)/2 - |nb| later, one of its two chains is valid and issued by a root the
-// server currently holds.
+// C09, obligation (1): from empty storage the first rotation call establishes the invariant INV at that instant.
+func VerifC09Base() {
+	ctx := context.Background()
+	st := &vfs.Storage{}
+	t0 := vf.Now()
+	life := vf.Dur("lifetime", 1000000000, 400000000000000000)
+	nb := vf.Dur("nbskew", -1000000000000000, 0)
+	na := vf.Dur("naskew", 0, 1000000000000000)
+	S := life + na
+	out, err := RotateRootCertificates(ctx, st, nodeenrollment.WithCertificateLifetime(life), nodeenrollment.WithNotBeforeClockSkew(nb), nodeenrollment.WithNotAfterClockSkew(na))
+	vf.Assert("succeeds", err == nil)
+	if err != nil {
+		return
+	}
+	end := vf.Now()
+	vf.Assume(vf.TimeLE(end, t0.Add(100*time.Millisecond)))
+	cNB, cNA := out.Current.NotBefore.AsTime(), out.Current.NotAfter.AsTime()
+	nNB, nNA := out.Next.NotBefore.AsTime(), out.Next.NotAfter.AsTime()
+	vf.Assert("current-valid-now", vf.And(vf.TimeLE(cNB, end), vf.TimeLE(t0, cNA)))
+	vf.Assert("next-begins-before-current-ends", vf.TimeLE(nNB, cNA))
+	vf.Assert("window-lengths", vf.And(nNA.Sub(nNB) == S-nb, cNA.Sub(cNB) == S-nb))
+	vf.Assert("next-outlives-one-full-span", vf.TimeLE(t0.Add(S), nNA))
+	vf.Reach("end")
+}
+
+// C09 (3b): the server rotates at a cadence <= delta from an arbitrary state satisfying INV; a node enrolls through the
+// real authorization code right after some call and receives one certificate per server root; at any instant less
+// than R = (S-delta)/2 - |nb| later, one of its two certificates is inside its validity, issued by a root that is
+// itself valid and that the server still holds.
 func VerifC09NodeLemma() {
 	ctx := context.Background()
 	st := &vfs.Storage{}
@@ -50,14 +83,40 @@ func VerifC09NodeLemma() {
 	nNB, nNA := vf.TimeFromNow("nNB", t0), vf.TimeFromNow("nNA", t0)
 	vf.Assume(vf.And(vf.And(vf.TimeLE(cNB, tl), vf.TimeLE(tl, cNA)),
 		vf.And(vf.TimeLE(nNB, cNA), vf.And(vf.And(nNA.Sub(nNB) == S-nb, cNA.Sub(cNB) == S-nb), vf.TimeLE(tl.Add(S), nNA)))))
-	pre := &types.RootCertificates{Id: nodeenrollment.RootsMessageId, Current: vfRoot("current", 0, cNB, cNA), Next: vfRoot("next", 1, nNB, nNA)}
-	if err := pre.Store(ctx, st); err != nil {
+	cur, _ := vfs.MkRoot("current", 0, cNB, cNA)
+	next, _ := vfs.MkRoot("next", 1, nNB, nNA)
+	if err := (&types.RootCertificates{Id: nodeenrollment.RootsMessageId, Current: cur, Next: next}).Store(ctx, st); err != nil {
 		panic(err)
 	}
 	server := rotate()
-	// the node enrolls now: it receives one chain per current server root, valid as long as that root
+	// the node enrolls now, through the real authorization code: one certificate per current server root
 	te := vf.Now()
-	nodeCur, nodeNext := server.Current, server.Next
+	info := &types.FetchNodeCredentialsInfo{CertificatePublicKeyPkix: vf.Pkix(2), CertificatePublicKeyType: types.KEYTYPE_ED25519,
+		Nonce: []byte("a-node-led-registration-nonce-32"), EncryptionPublicKeyBytes: vf.X25519Pub(0), EncryptionPublicKeyType: types.KEYTYPE_X25519,
+		NotBefore: timestamppb.New(te.Add(-time.Hour)), NotAfter: timestamppb.New(te.Add(time.Hour))}
+	bundle, err := proto.Marshal(info)
+	if err != nil {
+		panic(err)
+	}
+	rec, err := registration.AuthorizeNode(ctx, st, &types.FetchNodeCredentialsRequest{Bundle: bundle, BundleSignature: vf.SigBy(2, bundle)})
+	vf.Assume(vf.TimeLE(vf.Now(), t0.Add(slept+budget)))
+	vf.Assert("enrollment-succeeds", err == nil)
+	if err != nil {
+		return
+	}
+	vf.Assert("one-certificate-per-root", len(rec.CertificateBundles) == 2)
+	type chain struct {
+		leafNB, leafNA, caNB, caNA time.Time
+		caKey                      []byte
+	}
+	var chains []chain
+	for i, root := range []*types.RootCertificate{server.Current, server.Next} {
+		leaf, err := x509.ParseCertificate(rec.CertificateBundles[i].CertificateDer)
+		if err != nil {
+			panic(err)
+		}
+		chains = append(chains, chain{leaf.NotBefore, leaf.NotAfter, root.NotBefore.AsTime(), root.NotAfter.AsTime(), root.PublicKeyPkix})
+	}
 	// up to two more server calls, each at most delta after the previous one
 	calls := vf.Int("calls-after-enrollment", 0, 2)
 	for k := 0; k < calls; k++ {
@@ -68,16 +127,13 @@ func VerifC09NodeLemma() {
 	q := vf.Now()
 	vf.Assume(vf.TimeLE(q, t0.Add(slept+budget)))
 	R := (S-delta)/2 + nb
-	if vf.Bool("double-the-bound") {
-		R = 2 * R
+	usable := func(c chain) bool {
+		held := vf.Or(vf.EqBytes(c.caKey, server.Current.PublicKeyPkix), vf.EqBytes(c.caKey, server.Next.PublicKeyPkix))
+		return vf.And(held, vf.And(vf.And(vf.TimeLE(c.leafNB, q), vf.TimeLE(q, c.leafNA)), vf.And(vf.TimeLE(c.caNB, q), vf.TimeLE(q, c.caNA))))
 	}
-	vf.Assume(vf.TimeLT(q, te.Add(R)))
-	held := func(r *types.RootCertificate) bool {
-		return vf.Or(vf.EqBytes(r.PublicKeyPkix, server.Current.PublicKeyPkix), vf.EqBytes(r.PublicKeyPkix, server.Next.PublicKeyPkix))
-	}
-	validAt := func(r *types.RootCertificate) bool {
-		return vf.And(vf.TimeLE(r.NotBefore.AsTime(), q), vf.TimeLE(q, r.NotAfter.AsTime()))
-	}
-	vf.Assert("node-still-trusted", vf.Or(vf.And(held(nodeCur), validAt(nodeCur)), vf.And(held(nodeNext), validAt(nodeNext))))
+	trusted := vf.Or(usable(chains[0]), usable(chains[1]))
+	vf.Assert("node-still-trusted", vf.Implies(vf.TimeLT(q, te.Add(R)), trusted))
+	// tightness: with twice the re-rotation bound the node can be left without a usable chain
+	vf.Sat("bound-is-tight-at-2R", vf.And(vf.TimeLT(q, te.Add(2*R)), vf.Not(trusted)))
 	vf.Reach("end")
 }
